@@ -2120,6 +2120,14 @@ func (c *ChannelArbitrator) isPreimageAvailable(hash lntypes.Hash) (bool,
 		return false, err
 	}
 
+	// A canceled invoice still carries its preimage, but the registry will
+	// never settle an HTLC for it anymore: the incoming contest resolver
+	// would be handed a fail resolution and give up the HTLC. The preimage
+	// is of no use to us then.
+	if invoice.State == invoices.ContractCanceled {
+		return false, nil
+	}
+
 	preimageAvailable = invoice.Terms.PaymentPreimage != nil
 
 	return preimageAvailable, nil
